@@ -7,8 +7,11 @@ import (
 	"os"
 	"os/exec"
 	"path/filepath"
+	"reflect"
 	"regexp"
+	"runtime"
 	"sort"
+	"strconv"
 	"strings"
 	"time"
 
@@ -535,6 +538,8 @@ func runC03(cases string, res *Result) {
 	})
 	res.Hist["cases_with_map_of_3_or_more_entries"] = mapCases3
 	c03DateValues(res, dateEng)
+	c03MapsThatChange(res)
+	c03IdenticallyBuiltEngines(res)
 	for _, cl := range []string{"hash-duplicate-key", "key-string-collision", "toplevel-address", "merge-filter-key-collision"} {
 		bad := 0
 		for _, f := range res.Findings {
@@ -771,4 +776,192 @@ func c03DateValues(res *Result, eng *twig.Engine) {
 		}
 	}
 	res.sample(map[string]interface{}{"stream": "date-values", "values": len(vals) + len(strs), "formats": formats, "example": all[0].out}, 20)
+}
+
+// c03MapsThatChange: the output is determined by template and context -- the context as it is at that render. Maps of
+// 8 to 70 entries are rendered, changed in place so that their size stays the same (one key out, one in), rendered
+// again; and fresh maps of equal size and type are rendered one after the other with the collector run in between
+// (a later map may stand where an earlier one stood). Keys are two-digit so that the order is plain.
+func c03MapsThatChange(res *Result) {
+	tpls := []string{
+		"{% for k, v in m %}{{ k }}={{ v }};{% endfor %}", "{{ m|keys|join(',') }}", "{{ m|join(',') }}", "{% for v in m %}{{ v }}.{% endfor %}{{ m|length }}",
+		"{{ m|first }}|{{ m|last }}|{{ m|json_encode }}", "{% for k in m|keys|reverse %}{{ k }}{% endfor %}", "{{ m|merge({'zz': 0})|keys|join }}",
+	}
+	eng := twig.New()
+	for i, t := range tpls {
+		if err := eng.RegisterString("mc"+strconv.Itoa(i), t); err != nil {
+			panic("c03 maps that change: " + err.Error())
+		}
+	}
+	expect := func(ti int, keys []string, val func(string) string) string {
+		ks := append([]string(nil), keys...)
+		sort.Strings(ks)
+		var b strings.Builder
+		switch ti {
+		case 0:
+			for _, k := range ks {
+				b.WriteString(k + "=" + val(k) + ";")
+			}
+		case 1:
+			b.WriteString(strings.Join(ks, ","))
+		case 3:
+			for _, k := range ks {
+				b.WriteString(val(k) + ".")
+			}
+			b.WriteString(strconv.Itoa(len(ks)))
+		default:
+			return ""
+		}
+		return b.String()
+	}
+	check := func(where string, c Case, ti int, m interface{}, keys []string, val func(string) string) bool {
+		res.Evaluations++
+		got, err := eng.Render("mc"+strconv.Itoa(ti), map[string]interface{}{"m": m})
+		if err != nil {
+			got = "error: " + err.Error()
+		}
+		want := expect(ti, keys, val)
+		if want == "" {
+			// no closed form written down here: the same map rendered by an engine of its own is the reference
+			ref := twig.New()
+			ref.RegisterString("t", tpls[ti])
+			var rerr error
+			want, rerr = ref.Render("t", map[string]interface{}{"m": c03CopyMap(m)})
+			if rerr != nil {
+				want = "error: " + rerr.Error()
+			}
+		}
+		if got != want {
+			res.add(Finding{Kind: "oracle", Where: "maps-that-change/" + where, Case: c, Expected: want, Observed: got,
+				Detail: "the output does not follow the map as it is at this render: " + tpls[ti]})
+			return false
+		}
+		return true
+	}
+	for _, n := range []int{8, 31, 32, 40, 70} {
+		for ti := range tpls {
+			c := Case{"stream": "maps-that-change", "entries": n, "tpl": tpls[ti]}
+			res.Hist["stream:maps-that-change"]++
+			m := map[string]interface{}{}
+			var keys []string
+			for i := 0; i < n; i++ {
+				k := fmt.Sprintf("k%02d", i)
+				m[k] = i
+				keys = append(keys, k)
+			}
+			val := func(k string) string {
+				if k == "k99" || k == "k98" {
+					return "new"
+				}
+				return strconv.Itoa(int(k[1]-'0')*10 + int(k[2]-'0'))
+			}
+			if !check("first render", c, ti, m, keys, val) {
+				continue
+			}
+			delete(m, "k07")
+			m["k99"] = "new"
+			keys2 := append([]string{"k99"}, append(append([]string(nil), keys[:7]...), keys[8:]...)...)
+			if !check("one key out, one key in", c, ti, m, keys2, val) {
+				continue
+			}
+			m["k03"] = 333
+			val2 := func(k string) string {
+				if k == "k03" {
+					return "333"
+				}
+				return val(k)
+			}
+			check("a value changed", c, ti, m, keys2, val2)
+		}
+	}
+	// fresh maps of the same size, one after the other
+	for round := 0; round < 40; round++ {
+		m := map[string]int{}
+		var keys []string
+		for i := 0; i < 40; i++ {
+			k := fmt.Sprintf("r%02d_%02d", round%7, (i*7+round)%97)
+			m[k] = i
+			keys = append(keys, k)
+		}
+		vals := map[string]string{}
+		for k, v := range m {
+			vals[k] = strconv.Itoa(v)
+		}
+		c := Case{"stream": "maps-that-change", "round": round}
+		if !check("fresh maps of equal size", c, 0, m, keys, func(k string) string { return vals[k] }) {
+			break
+		}
+		m = nil
+		runtime.GC()
+	}
+}
+
+func c03CopyMap(m interface{}) interface{} {
+	rv := reflect.ValueOf(m)
+	out := reflect.MakeMapWithSize(rv.Type(), rv.Len())
+	for _, k := range rv.MapKeys() {
+		out.SetMapIndex(k, rv.MapIndex(k))
+	}
+	return out.Interface()
+}
+
+// c03IdenticallyBuiltEngines: engines configured by the same sequence of calls (extensions that define the same
+// names, one of them registered a second time, AddFilter / AddFunction / AddGlobal over them) render the same
+// template and context to the same bytes.
+func c03IdenticallyBuiltEngines(res *Result) {
+	f := func(tag string) twig.FilterFunc {
+		return func(v interface{}, _ ...interface{}) (interface{}, error) { return tag, nil }
+	}
+	g := func(tag string) twig.FunctionFunc {
+		return func(_ ...interface{}) (interface{}, error) { return tag, nil }
+	}
+	build := func() *twig.Engine {
+		e := twig.New()
+		e.RegisterExtension("theme", func(x *twig.CustomExtension) {
+			x.Filters["upper"] = f("theme-upper")
+			x.Functions["greet"] = g("theme-greet")
+		})
+		e.RegisterExtension("shop", func(x *twig.CustomExtension) {
+			x.Filters["upper"] = f("shop-upper")
+			x.Filters["price"] = f("shop-price")
+			x.Functions["greet"] = g("shop-greet")
+			x.Tests["cheap"] = func(v interface{}, _ ...interface{}) (bool, error) { return true, nil }
+		})
+		e.RegisterExtension("blog", func(x *twig.CustomExtension) {
+			x.Filters["price"] = f("blog-price")
+			x.Functions["greet"] = g("blog-greet")
+		})
+		for i := 0; i < 6; i++ {
+			n := "ext" + strconv.Itoa(i)
+			e.RegisterExtension(n, func(x *twig.CustomExtension) { x.Filters["tag"] = f(n + "-tag"); x.Functions["who"] = g(n + "-who") })
+		}
+		e.RegisterExtension("theme", func(x *twig.CustomExtension) { x.Filters["lower"] = f("theme2-lower") })
+		e.RegisterExtension("ext2", func(x *twig.CustomExtension) { x.Filters["tag"] = f("ext2b-tag") })
+		e.AddGlobal("g1", "G1")
+		e.AddGlobal("g2", "G2")
+		return e
+	}
+	const src = "{{ 'x'|upper }}|{{ 'X'|lower }}|{{ 1|price }}|{{ greet() }}|{{ 1|tag }}|{{ who() }}|{{ 1 is cheap ? 'c' : 'd' }}|{{ g1 }}{{ g2 }}|{{ 'a b'|title }}"
+	seen := map[string]int{}
+	first := ""
+	for i := 0; i < 48; i++ {
+		e := build()
+		res.Evaluations++
+		res.Hist["stream:identically-built-engines"]++
+		out, err := "", e.RegisterString("t", src)
+		if err == nil {
+			out, err = e.Render("t", map[string]interface{}{})
+		}
+		if err != nil {
+			out = "error: " + err.Error()
+		}
+		if i == 0 {
+			first = out
+		}
+		seen[out]++
+	}
+	if len(seen) > 1 {
+		res.add(Finding{Kind: "oracle", Where: "identically-built-engines", Case: Case{"stream": "identically-built-engines", "tpl": src}, Expected: first + " from every engine",
+			Observed: strings.Join(c03Set(seen), " | "), Detail: "48 engines configured by the same calls (extensions that define the same names, two of them registered a second time) render one template and context differently"})
+	}
 }
